@@ -233,9 +233,9 @@ def pred_table(rng):
     return [1 if rng.random() < d else 0 for _ in range(V)]
 
 
-def mk_job(jid, p, mode, rng, sched=None, logcalls=1, spin=0, timeout_ms=60000, track=1, sticky=None, sleep_us=0, hold_workers=0):
+def mk_job(jid, p, mode, rng, sched=None, logcalls=1, spin=0, timeout_ms=60000, track=1, sticky=None, sleep_us=0, hold_workers=0, hold_pos=-1):
     j = {"id": jid, "mode": mode, "seed": rng.randrange(1 << 30), "sticky": sticky if sticky is not None else rng.choice([0.0, 0.0, 0.5, 0.9]),
-         "sched": sched or [], "logcalls": logcalls, "spin": spin, "timeout_ms": timeout_ms, "track": track, "sleep_us": sleep_us, "hold_workers": hold_workers, "p": p}
+         "sched": sched or [], "logcalls": logcalls, "spin": spin, "timeout_ms": timeout_ms, "track": track, "sleep_us": sleep_us, "hold_workers": hold_workers, "hold_pos": hold_pos, "p": p}
     return j
 
 
